@@ -1,5 +1,6 @@
 import SSVerif.Proofs.S3file
 import SSVerif.Proofs.BinMdef
+import SSVerif.Proofs.Assembly
 import SSVerif.Model.S3fileLedger
 /-!
 # C17 — Damaged acoustic-model files are rejected without memory errors
@@ -198,6 +199,53 @@ example : ((List.range 188).all fun t =>
 example : (match mdefPlan (File.ofList [70, 68, 77, 66, 0, 0, 0, 1, 0, 0, 0, 12, 98, 105, 110, 32, 109, 100, 101, 102, 0, 0, 0, 0, 0, 0, 0, 3, 0, 0, 0, 5, 0, 0, 0, 0, 0, 0, 0, 4, 0, 0, 0, 7, 0, 0, 0, 3, 0, 0, 0, 5, 0, 0, 0, 3, 0, 0, 0, 4, 0, 0, 0, 2, 65, 0, 66, 0, 83, 73, 76, 0, 0, 0, 0, 1, 0, 0, 0, 1, 0, 1, 0, 1, 0, 0, 0, 2, 0, 2, 0, 1, 0, 0, 0, 3, 0, 3, 0, 1, 0, 0, 0, 4, 0, 0, 0, 0, 0, 0, 0, 0, 1, 0, 0, 0, 0, 0, 0, 1, 0, 0, 0, 1, 1, 0, 0, 0, 0, 0, 0, 2, 0, 0, 0, 2, 1, 0, 0, 0, 0, 0, 0, 3, 0, 0, 0, 0, 3, 0, 1, 2, 0, 0, 0, 4, 0, 0, 0, 1, 0, 1, 2, 0, 0, 0, 0, 7, 0, 0, 0, 1, 0, 2, 0, 3, 0, 4, 0, 5, 0, 6, 1, 2, 1, 2, 1]) with
     | .ok o => o.hdr.swap && o.hdr.nEmit == 0 && o.lay.sseqSize == 7 && o.cd2cisen.size == 7
     | _ => false) = true := by decide +kernel
+
+/-- **C17, the mixture-weight reader of ms_senone.c and the assembly of the acoustic model.**
+For every front end, every model definition whose `sen2cimap` has `n_sen` cells (which
+`C17_mdef_decides` establishes for every file `bin_mdef_read_s3file` accepts) and all files:
+* `senone_mixw_read` rejects or completes with positive dimensions and `n = n_sen * n_feat * n_cw`
+  (the product is not taken modulo 2^32, D19k);
+* `ptm_mgau_init_s3file` rejects or completes with consistent codebooks, `n_mgau = n_ciphone ≤ 256`,
+  as many streams as the front end, the senone count of the model definition (also when the
+  weights come from a mixture-weight file, D19l) and a `sen2cb` of that many cells;
+  `s2_semi_mgau_init_s3file` likewise with `n_mgau = 1`;
+* `ms_mgau_init_s3file` rejects or completes with `n_sen` of the model definition (D19k), the
+  feature and codeword counts of the codebooks, and `n_gauden ≤ n_mgau`.
+In none of them, nor in the fallback chain of `acmod_load_am`/`load_gmm` behind a model
+definition and transition matrices read from arbitrary files, is a byte outside a file read
+(`oob`) or `mdef->sen2cimap`, `featlen`, the stream lengths, `sen2cb`/`mgau` indexed at or past
+their element counts (`idx`). -/
+theorem C17_assembly_decides (ctx : AcCtx) (hctx : ctx.sen2cimap.size = ctx.nSen) (means vars : File) :
+    (∀ f, (∃ site, senMixwPlan f = .reject site) ∨ ∃ o, senMixwPlan f = .ok o ∧
+        0 < o.nSen ∧ 0 < o.nFeat ∧ 0 < o.nCw ∧ o.n = o.nSen * o.nFeat * o.nCw) ∧
+    (∀ src, (∃ site, ptmPlan ctx means vars src = .reject site) ∨ ∃ o, ptmPlan ctx means vars src = .ok o ∧
+        o.Consistent ctx ∧ o.g.nMgau = ctx.nCiphone ∧ o.g.nMgau ≤ 256 ∧ o.sen2cb.size = ctx.nSen) ∧
+    (∀ src, (∃ site, s2Plan ctx means vars src = .reject site) ∨ ∃ o, s2Plan ctx means vars src = .ok o ∧
+        o.Consistent ctx ∧ o.g.nMgau = 1) ∧
+    (∀ mixw, (∃ site, msPlan ctx means vars mixw = .reject site) ∨ ∃ o, msPlan ctx means vars mixw = .ok o ∧
+        o.g.Consistent ∧ o.g.nFeat = ctx.streams.length ∧ o.sen.nSen = ctx.nSen ∧ o.sen.nFeat = o.g.nFeat ∧
+        o.sen.nCw = o.g.nDensity ∧ o.nGauden ≤ o.g.nMgau) ∧
+    (∀ src i, gmmPlan ctx means vars src ≠ .oob i) ∧ (∀ src i n, gmmPlan ctx means vars src ≠ .idx i n) :=
+  ⟨fun f => Sat.decides (senMixwPlan_sat f), fun src => Sat.decides (ptmPlan_sat ctx hctx means vars src),
+   fun src => Sat.decides (s2Plan_sat ctx means vars src), fun mixw => Sat.decides (msPlan_sat ctx hctx means vars mixw),
+   fun src i => Sat.not_oob (gmmPlan_sat ctx hctx means vars src) i,
+   fun src i n => Sat.not_idx (gmmPlan_sat ctx hctx means vars src) i n⟩
+
+/-- **C17, `acmod_load_am` as a whole** (model definition, transition matrices, Gaussian mixture
+loaders in their fallback order) on arbitrary files: no read outside any file, no index past an
+allocation -/
+theorem C17_acmod_load_in_bounds (mdefF tmatF means vars : File) (src : MixSrc) (streams : List Nat) (ct : Bool) :
+    (∀ i, acmodLoadPlan mdefF tmatF means vars src streams ct ≠ .oob i) ∧
+    (∀ i n, acmodLoadPlan mdefF tmatF means vars src streams ct ≠ .idx i n) :=
+  ⟨fun i => Sat.not_oob (acmodLoadPlan_sat mdefF tmatF means vars src streams ct) i,
+   fun i n => Sat.not_idx (acmodLoadPlan_sat mdefF tmatF means vars src streams ct) i n⟩
+
+/-- non-vacuity of the cross-file index: copying 3 cells out of a 2-cell map is an `idx` outcome
+(what `sen2cb[i] = mdef->sen2cimap[i]` did for a mixture-weight file with more senones than the
+model definition before D19l), copying 2 is fine -/
+example : (match copyMap #[0, 1] 3 0 (Array.replicate 3 0) with | .idx 2 2 => true | _ => false) = true ∧
+    (match copyMap #[0, 1] 2 0 (Array.replicate 2 0) with | .ok a => a.toList == [0, 1] | _ => false) = true := by
+  decide
 
 /-! ## Error paths release the partial object exactly once -/
 
